@@ -4,7 +4,7 @@ import Dawn.Model.Build
 
     reset                                              → ok
     cleardefs                                          → ok
-    def <l> <f|s> <always> <env> <path> <deps> <reads> <gens> <code>   → ok     (lists: `1,2,3` or `-`)
+    def <l> <f|F|s> <always> <env> <path> <deps> <reads> <gens> <code>   → ok     (lists: `1,2,3` or `-`)
     file <p> m | file <p> f <c> | file <p> d <n:c,n:c,…>        → ok     (an edit of the tree)
     build <root> <always> <dry> <fails>                → <ok|fail> U=… V=… S=… F=… R=… G=… T=… I=…
     crash <root> <always> <fails> <k> <order>          → <crashed|completed> H=… R=… G=… T=… I=…
@@ -37,10 +37,12 @@ def mixVal : SrcVal → Nat
 /-- `codes`: what each fingerprint stands for (the identity of the function's code and referenced values, as the
 harness generated them). A body's output is a function of its fingerprint only through this meaning, so two
 fingerprints of the same code (e.g. shifted constant-pool indices) produce the same files. -/
-def drvParams (codes : List (Env × Nat)) : Params where
+def drvParams (codes : List (Env × Nat)) (selfs : List Label) : Params where
   sum := id
-  -- the harness bodies hash the paths they read and their contents, not the label a path was declared through
-  out := fun l e obs g => mix ([l, (codes.lookup e).getD e, g] ++ obs.flatMap fun o => o.2.flatMap fun pv => [pv.1, mixVal pv.2])
+  -- the harness bodies hash the paths they read and their contents, not the label a path was declared through; a body
+  -- that works on `self` (kind `F` of `def`) also hashes self.dependencies / self.sources / self.generates, in order
+  out := fun l e a obs g => mix ([l, (codes.lookup e).getD e, g] ++ (if selfs.contains l then [a.1.length] ++ a.1 ++ [a.2.length] ++ a.2 else []) ++
+    obs.flatMap fun o => o.2.flatMap fun pv => [pv.1, mixVal pv.2])
 
 structure DSt where
   defs : List (Label × Def) := []
@@ -49,6 +51,7 @@ structure DSt where
   gens : List Path := []         -- every path ever declared as generated
   intern : List Data := []       -- stamps in order of first appearance
   codes : List (Env × Nat) := [] -- fingerprint → meaning, first binding wins
+  selfs : List Label := []       -- function targets whose body works on the lists it is handed through `self`
 
 def DSt.tree (s : DSt) : Tree :=
   { defs := fun l => s.defs.lookup l, labels := (s.defs.map (·.1)).mergeSort (· ≤ ·) }
@@ -120,10 +123,12 @@ def step (s : DSt) (line : String) : DSt × String :=
   | ["def", l, k, al, e, p, ds, rs, gs, code] =>
     match l.toNat?, e.toNat?, p.toNat?, natList ds, natList rs, natList gs, code.toNat? with
     | some l, some e, some p, some ds, some rs, some gs, some code =>
-      let d : Def := ⟨if k == "f" then .fn else .src, ds, rs, gs, flag al, e, p⟩
+      let isFn := k == "f" || k == "F"
+      let d : Def := ⟨if isFn then .fn else .src, ds, rs, gs, flag al, e, p⟩
       ({ s with defs := (s.defs.filter (·.1 != l)) ++ [(l, d)], known := if s.known.contains l then s.known else s.known ++ [l],
                 gens := (s.gens ++ gs).eraseDups,
-                codes := if k == "f" && (s.codes.lookup e).isNone then s.codes ++ [(e, code)] else s.codes }, "ok")
+                codes := if isFn && (s.codes.lookup e).isNone then s.codes ++ [(e, code)] else s.codes,
+                selfs := if k == "F" then (if s.selfs.contains l then s.selfs else s.selfs ++ [l]) else s.selfs.filter (· != l) }, "ok")
     | _, _, _, _, _, _, _ => (s, "bad-input")
   | "file" :: p :: rest =>
     match p.toNat?, rest with
@@ -140,7 +145,7 @@ def step (s : DSt) (line : String) : DSt × String :=
     | some root, some fails =>
       let t := s.tree
       let o : Opts := ⟨flag al, flag dry, fun l => fails.contains l⟩
-      let b := runBuild (drvParams s.codes) t o (order t root) s.w
+      let b := runBuild (drvParams s.codes s.selfs) t o (order t root) s.w
       let (s', ws) := showWorld s b.w
       let u := evLabels b.evs fun | .upToDate l => some l | _ => none
       let v := evLabels b.evs fun | .evaluating l => some l | _ => none
@@ -154,9 +159,9 @@ def step (s : DSt) (line : String) : DSt × String :=
       let t := s.tree
       let o : Opts := ⟨flag al, false, fun l => fails.contains l⟩
       let ord := expandOrder t obs root
-      let b := runBuild (drvParams s.codes) t o ord s.w
+      let b := runBuild (drvParams s.codes s.selfs) t o ord s.w
       let all := b.steps.reverse
-      let w := crashBuild (drvParams s.codes) t o ord k s.w
+      let w := crashBuild (drvParams s.codes s.selfs) t o ord k s.w
       let (s', ws) := showWorld s w
       let h := (all.take k).map fun st => s!"{hookName st.hook}:{st.label}"
       (s', s!"{if all.length < k then "completed" else "crashed"} H={if h.isEmpty then "-" else ",".intercalate h} {ws}")
